@@ -75,6 +75,14 @@ class DocGen:
                     if fn:
                         items.append(["spread", fn])
                         self.features.add("spread-variant")
+                        if rng.random() < 0.35:
+                            # the same member also gets an inline fragment (disjoint keys), before or after the spread
+                            taken = set(used) | self.frag_keys(fn)
+                            sub = self.selection(m, depth + 1, used=set(taken))
+                            sub = [x for x in sub if x[0] != "spread"]
+                            if [x for x in sub if x[0] == "field"]:
+                                items.append(["inline", m, sub])
+                                self.features.add("spread-and-inline-same-member")
                 else:
                     self.features.add("unit-variant")
             rng.shuffle(items)
